@@ -103,6 +103,13 @@ def main():
         record(events, errors, mk(), meta, n, x, False)
         if rnd.random() < 0.5:
           record(events, errors, mk(), dict(meta, g=999), None, free_data(rnd, shape), False)
+        if not sa and not eps and len(shape) >= 2 and rnd.random() < 0.5:
+          # module-level state: under image_data_format 'channels_first' the default scale is per FIRST axis
+          tf.keras.backend.set_image_data_format("channels_first")
+          try:
+            record(events, errors, mk(), dict(meta, sa=[0], df="channels_first"), n, x, False)
+          finally:
+            tf.keras.backend.set_image_data_format("channels_last")
     # default grouping only: ternary (all scale modes), binary constant / no scale
     if not sa and not eps:
       for ak in ("auto", "auto_po2", "none", "const"):
